@@ -23,7 +23,10 @@ LEVEL_TEXT = ("Machine-checked proof (Coq, closed under the global context) over
               "write() the server rejected.  The desired unconditional theorems are REFUTED on the code as it is "
               "(witnesses by vm_compute, replayed on the real code every run, registered known finding): rejected "
               "pipelined writes are discarded.  Download path (get/getfo, prefetch) is covered by the implementation-"
-              "level oracle only (its buffer logic is C28's).")
+              "level oracle only (its buffer logic is C28's): read faults at every chunk position and loss of the "
+              "connection at chosen reads, prefetch uncapped / capped / off.  Where a reply-collecting drain of "
+              "SFTPFile._write runs (more than 100 requests outstanding and data ready) a rejected write must be raised: "
+              "stated as an independent oracle and exercised with > 100 small pipelined writes on a real server.")
 LEVEL_NOTE = ("Trusted: Coq kernel + vm_compute; hand-written models coq/Model/C29.v and C30.v validated by the "
               "correspondence runs; the remote file system is a byte list that stores exactly the writes answered "
               "SFTP_OK; get/getfo not modelled here (C27/C28 model the read path); an SFTP_EOF status on a read is "
@@ -138,12 +141,37 @@ def coq_putfo_case(k):
         coq((k["open_rp"][0], k["open_rp"][1], k["close_rp"][0], k["close_rp"][1])), coq(st))
 
 
-def judge_put(ctx, what, case, returned, src, dst, rejected, confirm, size_differs=None):
-    """The implementation-level oracle for uploads."""
+DRAIN_KEY = "pipelined-drain-misses-rejected-write"
+
+
+def drain_sees_rejection(env, nwrites, threshold=100):
+    """Independent statement of when a rejected pipelined write MUST surface during an upload that makes
+    no other request in between: SFTPFile._write collects ALL outstanding replies, oldest first, as soon as
+    more than `threshold` requests are outstanding and recv_ready() is true; the first error status among
+    them is raised.  env[j] = (recv_ready() answer, status code) of the j-th write."""
+    env = list(env)[:nwrites] + [(False, 0)] * max(0, nwrites - len(env))
+    outstanding = []
+    for ready, code in env:
+        outstanding.append(code)
+        if len(outstanding) > threshold and ready:
+            if any(c != 0 for c in outstanding):
+                return True
+            outstanding = []
+    return False
+
+
+def judge_put(ctx, what, case, returned, src, dst, rejected, confirm, drained=False):
+    """The implementation-level oracle for uploads.  drained: a reply-collecting drain ran while the
+    rejected write was still outstanding (then the rejection must have been raised)."""
     if not returned or dst == src:
         return
     if rejected:
-        if confirm and len(dst) != len(src):
+        if drained:
+            ctx.fail(DRAIN_KEY, what + " returned normally although _write collected the replies (more than 100 "
+                     "outstanding, data ready) while a rejected write was outstanding: its error status was lost",
+                     case=case, expected="raise at the drain",
+                     observed={"dest_len": len(dst), "src_len": len(src), "first_diff": first_diff(src, dst)})
+        elif confirm and len(dst) != len(src):
             ctx.fail("putfo-confirm-size-mismatch-not-raised",
                      what + " (confirm=True) returned normally although the remote size differs from the bytes sent",
                      case=case, expected="raise", observed={"dest_len": len(dst), "src_len": len(src)})
@@ -172,6 +200,13 @@ def scripted_part(ctx, n):
              stat=None, callback=False),
         dict(mrs=32768, chunks=[b"\x01", b"\x02"], confirm=True, env=[(False, 4), (False, 0)], open_rp=(102, 0),
              close_rp=(101, 0), stat=None, callback=False),
+        # more than 100 outstanding one-byte writes, the 6th rejected, data ready: the drain must raise
+        dict(mrs=1, chunks=[bytes([k % 251 + 1]) for k in range(130)], confirm=False,
+             env=[(True, 3 if k == 5 else 0) for k in range(130)], open_rp=(102, 0), close_rp=(101, 0), stat=None,
+             callback=False),
+        dict(mrs=1, chunks=[bytes([k % 251 + 1]) for k in range(130)], confirm=True,
+             env=[(k >= 110, 4 if k == 60 else 0) for k in range(130)], open_rp=(102, 0), close_rp=(101, 0),
+             stat=None, callback=False),
     ] + [gen_putfo_case(rng) for _ in range(n)]
     cases = []
     for j, k in enumerate(ks):
@@ -180,23 +215,30 @@ def scripted_part(ctx, n):
         src = b"".join(k["chunks"])
         rejected = any(code != 0 for _, code in k["env"])
         ctx.count(("putfo", repr(k)), nontrivial=len(k["chunks"]) > 0,
-                  kind="scripted-putfo:" + ("witness" if j < 2 else "rejecting" if rejected else "accepting") +
+                  kind="scripted-putfo:" + ("witness" if j < 4 else "rejecting" if rejected else "accepting") +
                   (":confirm" if k["confirm"] else ""))
         case = {k2: (v if k2 != "chunks" else [bytes(c) for c in v]) for k2, v in k.items()}
         honest = k["stat"] is None
         if out == 98:
             ctx.fail("putfo-blocks", "putfo waits for a packet although the server has answered every request",
                      case=case)
-        if honest:
-            judge_put(ctx, "putfo", case, out == 0, src, dst, rejected, k["confirm"])
+        nwrites = sum((len(c) + k["mrs"] - 1) // k["mrs"] for c in k["chunks"])
+        drained = k["open_rp"][0] == 102 and drain_sees_rejection(k["env"], nwrites)
+        if honest or drained:
+            judge_put(ctx, "putfo", case, out == 0, src, dst, rejected, k["confirm"], drained)
         if out == 0 and k["callback"] and calls and calls[-1] != len(src):
             ctx.fail("putfo-callback-total", "the last callback does not report the total bytes sent", case=case,
                      expected=len(src), observed=calls[-1])
         cases.append((coq_putfo_case(k), [out, len(dst)] + list(dst)))
         if j == 2:
             ctx.sample({"putfo_case": case, "outcome": out, "dest": dst})
-    bad = ctx.model_mismatches("run_putfo", "((Z * bool) * list (list Z) * list (bool * Z) * (Z * Z * Z * Z) * list Z)",
-                               cases, imports="From PV Require Import C30 C29.", shard=60)
+    try:
+        bad = ctx.model_mismatches("run_putfo",
+                                   "((Z * bool) * list (list Z) * list (bool * Z) * (Z * Z * Z * Z) * list Z)",
+                                   cases, imports="From PV Require Import C30 C29.", shard=60)
+    except Exception as e:  # noqa - the oracle above does not depend on the model
+        ctx.disagree("model evaluation failed: %r" % (e,))
+        bad = []
     for i in bad[:3]:
         ctx.disagree("putfo outcome / destination differ from the model", case=ks[i], impl=cases[i][1][:40])
 
@@ -371,27 +413,207 @@ def live_part(ctx, sizes, codes, wd):
         shutil.rmtree(local, ignore_errors=True)
 
 
+class SlowReader:
+    """A source that hands out small pieces and pauses now and then, so that write replies arrive while
+    the upload is still going on (recv_ready() becomes true)."""
+
+    def __init__(self, data, piece):
+        self.data, self.piece, self.pos, self.n = data, piece, 0, 0
+
+    def read(self, n):
+        import time
+        self.n += 1
+        if self.n % 4 == 0:
+            time.sleep(0.003)
+        x = self.data[self.pos:self.pos + min(n, self.piece)]
+        self.pos += len(x)
+        return x
+
+
+def many_writes_part(ctx, wd, rounds):
+    """Uploads made of > 100 pipelined write requests (SFTPFile.MAX_REQUEST_SIZE patched to 1000 in the
+    harness process) with one early write rejected by the real server: once _write has collected replies
+    (recv_ready() true with more than 100 outstanding) the rejection must have been raised."""
+    from paramiko import SFTPHandle
+    from paramiko.sftp_file import SFTPFile
+    rng = ctx.rng
+    faults = Faults()
+    ow, orr = install(faults)
+    old = SFTPFile.MAX_REQUEST_SIZE
+    SFTPFile.MAX_REQUEST_SIZE = 1000
+    sess = c30.Session(ctx.repo)
+    try:
+        for rnd in range(rounds):
+            size = rng.choice([260000, 180000, 400000])
+            src = bytes(rng.getrandbits(8) for _ in range(4096)) * (size // 4096 + 1)
+            src = src[:size]
+            pos = rng.choice([0, 7, 42, 60, 99]) if rnd else 7
+            code = rng.choice([2, 3, 4, 5, 8])
+            confirm = bool(rnd % 2)
+            faults.reset()
+            faults.fail_write = (pos, code)
+            readies = []
+            sock = sess.sftp.sock
+            orig_ready = sock.recv_ready
+
+            def recv_ready():
+                r = orig_ready()
+                readies.append(r)
+                return r
+
+            sock.recv_ready = recv_ready
+            try:
+                st, v = with_watchdog(
+                    lambda: sess.sftp.putfo(SlowReader(src, 5000), "/many.bin", len(src), None, confirm), wd)
+            finally:
+                del sock.recv_ready
+            case = {"op": "putfo", "size": size, "max_request_size": 1000, "writes": (size + 999) // 1000,
+                    "fail_write_index": pos, "code": code, "confirm": confirm,
+                    "drain_taken": any(readies)}
+            ctx.count(("many", repr(case)), kind="live-upload:many-small-writes")
+            if st == "hang":
+                ctx.fail("upload-hangs", "an upload did not complete under the watchdog", case=case)
+                sess.close()
+                sess = c30.Session(ctx.repo)
+                continue
+            try:
+                with open(os.path.join(sess.root, "many.bin"), "rb") as fh:
+                    dst = fh.read()
+            except OSError:
+                dst = b""
+            # recv_ready() is only asked with more than 100 requests outstanding; the first time it says
+            # yes, writes 0..100 (the rejected one among them) are all still outstanding
+            judge_put(ctx, "putfo", case, st == "ok", src, dst, faults.hit is not None, confirm, drained=any(readies))
+            try:
+                os.unlink(os.path.join(sess.root, "many.bin"))
+            except OSError:
+                pass
+    finally:
+        SFTPFile.MAX_REQUEST_SIZE = old
+        SFTPHandle.write, SFTPHandle.read = ow, orr
+        sess.close()
+
+
+def drop_part(ctx, sizes, wd):
+    """The server side of the sftp session goes away (channel closed) while it serves the k-th read of a
+    download: get / getfo must raise or deliver the exact file - prefetch on/off, capped/uncapped."""
+    import threading
+    from paramiko import SFTPHandle, SFTP_FAILURE
+    rng = ctx.rng
+    orr = SFTPHandle.read
+    state = {}
+
+    def read(self, offset, length):
+        i = state["n"]
+        state["n"] += 1
+        if i == state["drop_at"]:
+            state["hit"] = offset
+            for chan in list(state["sess"].ts._channels.values()):
+                chan.close()
+            return SFTP_FAILURE          # (this reply can no longer be delivered)
+        return orr(self, offset, length)
+
+    SFTPHandle.read = read
+    old_hook = threading.excepthook
+    threading.excepthook = lambda args: None      # the client's prefetch thread dies noisily
+    try:
+        for size in sizes:
+            src = bytes(rng.getrandbits(8) for _ in range(4096)) * (size // 4096 + 1)
+            src = src[:size]
+            nchunks = (size + 32767) // 32768
+            for pos in sorted({0, 1, nchunks // 2, nchunks - 1}):
+                for prefetch, cap in ((True, None), (True, 2), (False, None)):
+                    use_get = rng.random() < 0.5
+                    sess = c30.Session(ctx.repo)
+                    try:
+                        with open(os.path.join(sess.root, "down.bin"), "wb") as fh:
+                            fh.write(src)
+                        state.update(n=0, drop_at=pos, hit=None, sess=sess)
+                        ldst = os.path.join(sess.root, "local-copy.bin")
+                        buf = io.BytesIO()
+
+                        def go():
+                            if use_get:
+                                return sess.sftp.get("/down.bin", ldst, None, prefetch, cap)
+                            return sess.sftp.getfo("/down.bin", buf, None, prefetch, cap)
+
+                        st, v = with_watchdog(go, wd)
+                        case = {"op": "get" if use_get else "getfo", "size": size, "connection_dropped_at_read": pos,
+                                "prefetch": prefetch, "max_concurrent": cap}
+                        ctx.count(("drop", repr(case)), kind="live-download:connection-loss")
+                        if st == "hang":
+                            ctx.fail("download-hangs-after-connection-loss",
+                                     "a download neither returned nor raised after the server side went away", case=case)
+                        elif st == "ok":
+                            if use_get:
+                                with open(ldst, "rb") as fh:
+                                    got = fh.read()
+                            else:
+                                got = buf.getvalue()
+                            if got != src:
+                                ctx.fail("download-inexact:connection-loss:" +
+                                         ("prefetch" + ("-capped" if cap else "") if prefetch else "plain"),
+                                         "%s returned normally with %d of %d bytes after the server side of the "
+                                         "session went away" % (case["op"], len(got), len(src)),
+                                         case=case, expected="raise, or the exact file",
+                                         observed={"len": len(got), "first_diff": first_diff(src, got)})
+                    finally:
+                        state["drop_at"] = None
+                        sess.close()
+    finally:
+        threading.excepthook = old_hook
+        SFTPHandle.read = orr
+
+
 def run(ctx):
     ctx.rule = ("seeded generator (random.Random('C29-<seed>')): scripted putfo cases = source chunkings (0..5 reads "
                 "of 1..12 bytes, or 60..130 reads to cross the 100-request drain threshold), MAX_REQUEST_SIZE 1..8, "
                 "per-write status codes 0..9 and recv_ready() answers, open / close / stat replies incl. errors and "
                 "wrong sizes, confirm and callback on/off; live cases = file sizes 0..1 MiB (thorough) / 0..100 KiB "
                 "(quick) with one failing write or read at EVERY chunk position, each SFTP error code in turn, short "
-                "reads, put/putfo/get/getfo, confirm/callback/prefetch on/off.  Non-trivial = distinct and non-empty.")
+                "reads, put/putfo/get/getfo, confirm/callback/prefetch on/off; uploads of 180..400 KB as > 100 pipelined "
+                "1000-byte writes with one early write rejected; downloads of 100 KB..1 MiB during which the server "
+                "side of the session goes away at the first / second / middle / last read, prefetch uncapped, capped "
+                "and off.  Non-trivial = distinct and non-empty.")
     ctx.trusted += ["models coq/Model/C29.v and C30.v are hand-written; tied to sftp_client.py / sftp_file.py / file.py "
                     "by this differential run (vm_compute of the model's own definitions)",
                     "download path covered by the implementation-level oracle only"]
     ctx.assumptions += ["the remote file stores exactly the writes the server answers with SFTP_OK",
                         "an SFTP_EOF status on a read means end of file (the transfer then ends normally)"]
-    ctx.prove(GENS)
-    scripted_part(ctx, 900 if ctx.thorough else 150)
+    try:
+        ctx.prove(GENS)
+    except Exception as e:  # noqa - the oracles below do not depend on the proofs / translator
+        ctx.disagree("proof build failed: %r" % (e,))
+    # the drain threshold the oracle uses must be the one of the working tree (regenerated by gen/c30.py)
+    import re
+    import common
+    try:
+        gen = open(os.path.join(common.COQ, "Gen", "C30_gen.v")).read()
+        thr = int(re.search(r"g_DRAIN_THRESHOLD : Z := (\d+)", gen).group(1))
+        if thr != 100:
+            ctx.disagree("drain threshold of SFTPFile._write differs from the oracle's", model=100, impl=thr)
+    except Exception as e:  # noqa
+        ctx.disagree("cannot read the generated drain threshold: %r" % (e,))
     codes = [2, 3, 4, 5, 6, 7, 8, 1]
     if ctx.thorough:
         sizes = [0, 1, 32767, 32768, 32769, 65536, 100000, 300000, 1048576, 1048577 - 2,
                  ctx.rng.randrange(1, 1048576), ctx.rng.randrange(1, 200000)]
+        drops = [100000, 300000, 1048576]
     else:
         sizes = [0, 1, 32768, 32769, 70000, ctx.rng.randrange(1, 100000)]
-    live_part(ctx, sizes, codes, 30.0)
+        drops = [100000, 300000]
+    import time
+    import traceback
+    for name, fn in (("scripted", lambda: scripted_part(ctx, 900 if ctx.thorough else 150)),
+                     ("live", lambda: live_part(ctx, sizes, codes, 30.0)),
+                     ("many-writes", lambda: many_writes_part(ctx, 30.0, 6 if ctx.thorough else 3)),
+                     ("connection-loss", lambda: drop_part(ctx, drops, 20.0))):
+        t0 = time.time()
+        try:
+            fn()
+        except Exception:  # noqa
+            ctx.disagree("the %s part of the check raised" % name, impl=traceback.format_exc()[-1500:])
+        ctx.log("timing: %s %.1fs" % (name, time.time() - t0))
 
 
 def replay(ctx, rep):
